@@ -58,27 +58,28 @@ theorem scanR_eq (M c : Nat) (fut : Nat → Nat) :
         rw [if_neg this, if_neg hit]
 
 theorem RelR_data (M c tw : Nat) (fut : Nat → Nat) (htw : tw ≤ c) :
-    ∀ (k : Nat) (rs : List RFrame) (ws : List Nat), RelR M (fun j => c + fut j) k rs ws →
+    ∀ (k : Nat) (rs : List RFrame) (ws : List Nat), RelR M (fun j => c + fut j) k rs ws → (∀ w ∈ ws, w + tw ≤ M) →
       RelR M (fun j => (c - tw) + fut j) k (subWritten tw rs) (ws.map (· + tw)) := by
   intro k rs
   induction rs generalizing k with
   | nil =>
-    intro ws h
+    intro ws h _
     cases ws with
     | nil => simp [subWritten, RelR]
     | cons w ws => simp [RelR] at h
   | cons f fs ih =>
-    intro ws h
+    intro ws h hb
     cases ws with
     | nil => simp [RelR] at h
     | cons w ws =>
       simp only [RelR] at h
       obtain ⟨h1, h2, h3⟩ := h
-      have := ih (k + 1) ws h3
+      have := ih (k + 1) ws h3 (fun x hx => hb x (List.mem_cons_of_mem _ hx))
+      have hbw := hb w List.mem_cons_self
       simp only [subWritten, List.map_cons, RelR] at this ⊢
       have e : w + tw + (c - tw + fut k) = w + (c + fut k) := by omega
       refine ⟨?_, ?_, this⟩
-      · rw [e, h1]; omega
+      · rw [e, h1]; simp only [subWrap]; split <;> omega
       · rw [e, h2]
 
 theorem RelR_close (M : Nat) (rem : Nat → Nat) :
@@ -128,7 +129,7 @@ theorem erase_eq_hdr {it : Item} {s j : Nat} (h : it.erase = .hdr s j) : ∃ i, 
 
 theorem rdata_spec (P : Params) (M c tw : Nat) (fut : Nat → Nat) (buf acc : Bytes) (hc : c = buf.length) (htw : tw ≤ c)
     (rs : List RFrame) (ws : List Nat) (items rest : List Item)
-    (hrel : RelR M (fun j => c + fut j) 0 rs ws)
+    (hrel : RelR M (fun j => c + fut j) 0 rs ws) (hb : ∀ w ∈ ws, w + tw ≤ M)
     (hitems : items.map Item.erase = (if tw > 0 then [Item.seg (buf.take tw)] else []) ++ rest) :
     ∃ items1 rs1, rdata { inp := serialize P items, frames := rs } tw = { inp := serialize P items1, frames := rs1 } ∧
       items1.map Item.erase = rest ∧
@@ -143,7 +144,7 @@ theorem rdata_spec (P : Params) (M c tw : Nat) (fut : Nat → Nat) (buf acc : By
       have hit := erase_eq_seg hitems.1
       subst hit
       have hlen : (buf.take tw).length = tw := by simp; omega
-      refine ⟨items1, subWritten tw rs, ?_, hitems.2, ?_, RelR_data M c tw fut htw 0 rs ws hrel⟩
+      refine ⟨items1, subWritten tw rs, ?_, hitems.2, ?_, RelR_data M c tw fut htw 0 rs ws hrel hb⟩
       · simp only [rdata, h0, ↓reduceIte, serialize_cons, Item.ser]
         rw [List.drop_left' hlen]
       · simp only [serialize_cons, Item.ser]
